@@ -20,6 +20,16 @@
 
 namespace gemmi {
 
+// Miller indices are stored in MTZ as floats and are multiplied by symmetry
+// operations (integers scaled by Op::DEN): values that a float cannot hold
+// exactly would overflow that arithmetic, so they are refused.
+inline int as_miller_index(const std::string& s) {
+  int n = cif::as_int(s);
+  if (n > 0xFFFFFF || n < -0xFFFFFF)
+    fail("Miller index out of range: " + s);
+  return n;
+}
+
 // "Old-style" anomalous or unmerged data is expected to have only these tags.
 inline bool possible_old_style(const ReflnBlock& rb, DataType data_type) {
   if (rb.refln_loop == nullptr)
@@ -101,7 +111,7 @@ inline cif::Loop transcript_old_anomalous_to_standard(const cif::Loop& loop,
     const std::string* row = &loop.values[i];
     Miller hkl;
     for (size_t j = 0; j < 3; ++j)
-      hkl[j] = cif::as_int(row[positions[j]]);
+      hkl[j] = as_miller_index(row[positions[j]]);
     auto hkl_sign = asu.to_asu_sign(hkl, gops);
     // pointers don't change, .reserve() above prevents re-allocations
     std::string* new_row = ret.values.data() + ret.values.size();
@@ -478,7 +488,7 @@ struct CifToMtz {
       if (unmerged) {
         std::array<int, 3> hkl;
         for (size_t ii = 0; ii != 3; ++ii)
-          hkl[ii] = cif::as_int(loop->values[i + indices[ii]]);
+          hkl[ii] = as_miller_index(loop->values[i + indices[ii]]);
         int isym = hkl_mover->move_to_asu(hkl);
         for (size_t j = 0; j != 3; ++j)
           mtz.data[k++] = (float) hkl[j];
@@ -486,7 +496,7 @@ struct CifToMtz {
         mtz.data[k++] = batch_nums.empty() ? 1.f : (float) batch_nums[row++].frame_id;
       } else {
         for (size_t j = 0; j != 3; ++j)
-          mtz.data[k++] = (float) cif::as_int(loop->values[i + indices[j]]);
+          mtz.data[k++] = (float) as_miller_index(loop->values[i + indices[j]]);
       }
       for (size_t j = 3; j != indices.size(); ++j) {
         const std::string& v = loop->values[i + indices[j]];
